@@ -76,6 +76,13 @@ fn catalogue(k: usize, dead_session: Option<u32>) -> Vec<Fault> {
         Fault { kind: "huge-delay", content: format!("<send id=\"{}\" event=\"x\" delay=\"9999999999999999s\"/>", id), expect: Expect::AtMost, aborts_block: None },
         Fault { kind: "huge-delayexpr", content: format!("<send id=\"{}\" event=\"x\" delayexpr=\"'9999999999999999s'\"/>", id), expect: Expect::AtMost, aborts_block: None },
         Fault { kind: "large-delay", content: format!("<send id=\"{}\" event=\"x\" delay=\"99999999999d\"/>", id), expect: Expect::AtMost, aborts_block: None },
+        Fault { kind: "session-target-empty-id", content: format!("<send id=\"{}\" target=\"#_scxml_\" event=\"x\"/>", id), expect: Expect::EitherError, aborts_block: None },
+        Fault { kind: "invoke-target-empty-id", content: format!("<send id=\"{}\" target=\"#_\" event=\"x\"/>", id), expect: Expect::EitherError, aborts_block: None },
+        Fault { kind: "session-target-overflow", content: format!("<send id=\"{}\" target=\"#_scxml_99999999999999\" event=\"x\"/>", id), expect: Expect::EitherError, aborts_block: None },
+        Fault { kind: "session-target-negative", content: format!("<send id=\"{}\" target=\"#_scxml_-1\" event=\"x\"/>", id), expect: Expect::EitherError, aborts_block: None },
+        Fault { kind: "negative-delayexpr", content: format!("<send id=\"{}\" event=\"x\" delayexpr=\"'-5s'\"/>", id), expect: Expect::Must("error.execution"), aborts_block: None },
+        Fault { kind: "cancel-empty-id", content: "<cancel sendid=\"\"/>".into(), expect: Expect::AtMost, aborts_block: None },
+        Fault { kind: "empty-event-name", content: format!("<send id=\"{}\" eventexpr=\"''\"/>", id), expect: Expect::AtMost, aborts_block: None },
         Fault { kind: "delayed-unknown-session", content: format!("<send id=\"{}\" target=\"#_scxml_99\" event=\"x\" delay=\"2ms\"/>", id), expect: Expect::Later("error.communication"), aborts_block: Some(false) },
         Fault { kind: "delayed-unknown-invokeid", content: format!("<send id=\"{}\" target=\"#_nosuchinvoke\" event=\"x\" delay=\"1ms\"/>", id), expect: Expect::Later("error.communication"), aborts_block: Some(false) },
         Fault { kind: "delayed-malformed-target", content: format!("<send id=\"{}\" target=\"not-a-target\" event=\"x\" delay=\"3ms\"/>", id), expect: Expect::Later("error.execution"), aborts_block: Some(false) },
